@@ -211,6 +211,9 @@ def run(ctx):
         if re.match(r"^std::cmp::PartialEq::eq\(%s, \.0\(as:Some\(%s\)\)\)$" % (REPR, GET), s) or \
                 re.match(r"^std::cmp::PartialEq::eq\(\.0\(as:Some\(%s\)\), %s\)$" % (GET, REPR), s):
             return "EQ", label is True
+        if re.match(r"^std::cmp::PartialEq::ne\(%s, \.0\(as:Some\(%s\)\)\)$" % (REPR, GET), s) or \
+                re.match(r"^std::cmp::PartialEq::ne\(\.0\(as:Some\(%s\)\), %s\)$" % (GET, REPR), s):
+            return "EQ", label is False
         if re.match(r"^operators::Operator::<'a, T>::has_bin\(op\)$", s):
             return "BIN", label is True
         if re.match(r"^binop:Ge\(%s, core::str::<impl str>::len\(text\)\)$" % END, s):
